@@ -1,10 +1,10 @@
 #!/usr/bin/env python3
-"""Sensitivity battery: deliberate breakages applied to /repo's working tree one
-at a time (reverted afterwards), each checked against the unit tests and the
-named checks. Usage: tools/mutants.py [name ...]   Output: tools/mutants.result.txt
-Nothing is committed to /repo."""
+"""Sensitivity battery: deliberate breakages applied one at a time to a scratch
+worktree of /repo (never to /repo itself; the worktree is removed at the end),
+each checked against the unit tests and the named checks (VERIF_REPO=<worktree>).
+Usage: tools/mutants.py [name ...]   Output: tools/mutants.result.txt"""
 import os, re, subprocess, sys, time
-REPO = "/repo"
+REPO = "/tmp/w/mutants-%d" % os.getpid()
 ROOT = os.path.dirname(os.path.dirname(os.path.abspath(__file__)))
 
 # name, file, old, new, checks
@@ -13,8 +13,8 @@ M = [
  ("C01-flags-on-every-instance", "cmd/write.go", "\t\tif i == 0 {\n\t\t\tif err := overrideInstanceFromFlags", "\t\tif i >= 0 {\n\t\t\tif err := overrideInstanceFromFlags", "C01 C07 C05"),
  ("C01-extends-dropped-when-own-attrs", "chord/map.go", 'if x := c.Extends; x != "" {\n\t\tif xs, ok', 'if x := c.Extends; x != "" && len(c.Attributes) < 2 {\n\t\tif xs, ok', "C01 C16"),
  ("C01-key-accidental-ignored-for-flats", "op/key.go", "return k.Name.Semitone() + k.Accidental.AsNoteAccidental().Semitone()", "if k.Accidental == Flat && k.Minor {\n\t\treturn k.Name.Semitone()\n\t}\n\treturn k.Name.Semitone() + k.Accidental.AsNoteAccidental().Semitone()", "C01 C05"),
- ("C02-floor-instead-of-round", "midix/write.go", "uint32(math.Round(float64(w.quoaterNoteTicks) * multiplier))", "uint32(math.Floor(float64(w.quoaterNoteTicks) * multiplier))", "C02 C10"),
- ("C02-rest-delta-assigned", "midix/write.go", "func (w *MIDIWriter) addTickDelta(t uint32) { w.tickDelta += t }", "func (w *MIDIWriter) addTickDelta(t uint32) { w.tickDelta = t }", "C02 C06"),
+ ("C02-floor-instead-of-round", "midix/write.go", "t := math.Round(float64(w.quoaterNoteTicks) * multiplier)", "t := math.Floor(float64(w.quoaterNoteTicks) * multiplier)", "C02 C10"),
+ ("C02-rest-delta-assigned", "midix/write.go", "func (w *MIDIWriter) addTickDelta(t uint32) { w.tickDelta = addTicks(w.tickDelta, t) }", "func (w *MIDIWriter) addTickDelta(t uint32) { w.tickDelta = t }", "C02 C06"),
  ("C03-negative-distance-not-wrapped", "op/scale.go", "\tif s < 0 {\n\t\ts += oct\n\t}", "\tif s < -1 {\n\t\ts += oct\n\t}", "C03 C05"),
  ("C03-bass-from-tonic", "astconv/conv.go", "baseDegree, err := rootScaleNote.GetDegree(baseScaleNote, baseTendency == op.Sharp)", "baseDegree, err := c.scale.Tonic().GetDegree(baseScaleNote, baseTendency == op.Sharp)", "C03 C05"),
  ("C04-symbol-swallows-semicolon", "input/ast/lexer.go", 'strings.ContainsRune("/[_;=", r)', 'strings.ContainsRune("/[_=", r)', "C04 C11"),
@@ -91,9 +91,20 @@ def special_c05(path):
 def main():
     want = sys.argv[1:]
     out = open(os.path.join(ROOT, "tools", "mutants.result.txt"), "a")
-    rc, st = sh("git status --porcelain", REPO)
-    if st.strip():
-        print("REPO not clean:", st); sys.exit(2)
+    os.makedirs("/tmp/w", exist_ok=True)
+    rc, st = sh("git -C /repo worktree add -q --detach %s HEAD" % REPO)
+    if rc != 0:
+        print("cannot create the scratch worktree:", st); sys.exit(2)
+    head = sh("git -C /repo rev-parse --short HEAD")[1].strip()
+    out.write("# run on /repo %s, /verif %s\n" % (head, sh("git -C %s rev-parse --short HEAD" % ROOT)[1].strip()))
+    try:
+        run(want, out)
+    finally:
+        sh("git -C /repo worktree remove --force %s" % REPO)
+    out.close()
+
+
+def run(want, out):
     for name, f, old, new, checks in M:
         if want and name not in want:
             continue
@@ -112,7 +123,7 @@ def main():
             res = []
             for c in checks.split():
                 t0 = time.time()
-                rc, o = sh("./check %s 2>&1" % c, ROOT)
+                rc, o = sh("VERIF_REPO=%s ./check %s 2>&1" % (REPO, c), ROOT)
                 sigs = set()
                 for m in re.finditer(r'replay=(\S+)', o):
                     try:
@@ -126,8 +137,7 @@ def main():
             out.write(line + "\n"); out.flush()
         finally:
             sh("git checkout -- .", REPO)
-            sh("rm -f %s/replays/*/*.json" % ROOT)
-    out.close()
+            sh("rm -rf %s/.work/scratch-replays/%s" % (ROOT, os.path.basename(REPO)))
 
 if __name__ == "__main__":
     main()
